@@ -366,6 +366,8 @@ type conv struct {
 	burst    bool // the plugin writes all its messages in one write before reading any reply
 	timer    bool // WaitTimer installed and a 5.5 s silence before the first message
 	helper   bool // the plugin leaves a helper process behind that holds its stderr
+	exit     int  // exit status of the plugin process when it finishes normally
+	onInt    int  // >0: the plugin handles the client's interrupt and exits with this status
 	id       int
 }
 
@@ -520,6 +522,11 @@ func main() {
 		}
 		c.bytewise = i%9 == 2
 		c.burst = i%4 == 1 && !c.bytewise && len(c.msgs) >= 2
+		// how the plugin PROCESS ends carries no meaning in the protocol
+		c.exit = []int{0, 0, 1, 3, 0, 255, 0}[i%7]
+		if i%5 == 2 {
+			c.onInt = 130
+		}
 	}
 	// every UI configuration against every single UI-dependent message
 	for machine, alpha := range [][]msg{recipientAlphabet(), identityAlphabet()} {
@@ -631,7 +638,7 @@ type callResult struct {
 }
 
 func runConv(r *mon.Run, env *plug.Env, name string, c *conv) {
-	sc := &plug.Script{Burst: c.burst, Helper: c.helper}
+	sc := &plug.Script{Burst: c.burst, Helper: c.helper, ExitCode: c.exit, OnInterrupt: c.onInt}
 	for i, m := range c.msgs {
 		switch m.term {
 		case "exit":
@@ -750,11 +757,12 @@ func runConv(r *mon.Run, env *plug.Env, name string, c *conv) {
 		r.Violate("no-transcript:"+desc, fmt.Sprintf("plugin left no transcript (was it started?): %v; call result err=%v", err, res.err), replayOf(c))
 		return
 	}
-	r.Distinct(fmt.Sprintf("%s bytewise=%v burst=%v timer=%v helper=%v", desc, c.bytewise, c.burst, c.timer, c.helper))
+	r.Distinct(fmt.Sprintf("%s bytewise=%v burst=%v timer=%v helper=%v exit=%d onint=%d", desc, c.bytewise, c.burst, c.timer, c.helper, c.exit, c.onInt))
 	if c.burst {
 		r.Count("burst_conversations", 1)
 	}
 	r.Count("transcripts_checked", 1)
+	r.Tab("plugin_process_ends_with", fmt.Sprintf("exit=%d/on-interrupt=%d", c.exit, c.onInt))
 	if tr.End == "self-timeout" {
 		hangs.Add(1)
 		r.Violate("hang:"+terminalOf(c), desc+": the client kept the conversation open until the plugin's 30 s self-destruct instead of returning an error", replayOf(c))
